@@ -202,3 +202,9 @@ package cisco
 //vc:  assert[C01] at "gb.ready = true" @boundGroupHasSameElements ga.parsed == gb.parsed && len(ga.sub) == len(gb.sub) && (forall k int :: { gb.sub[k] } 0 <= k && k < len(gb.sub) ==> gb.sub[k].orig == ga.sub[k].orig)
 //vc:  invariant[C01] 1 "for _, aName := range slices.Sorted(maps.Keys(m))" true
 //vc:  invariant[C01] 2 "for i, n := range gb.sub" @elementsEqualSoFar -1 <= rangeindex && (forall k int :: { gb.sub[k] } 0 <= k && k <= rangeindex ==> gb.sub[k].orig == ga.sub[k].orig)
+
+// diffCmds: lines of an IOS extended ACL that is bound to an interface must be
+// changed by diffIOSACLs (inserts first, deletes bottom-up, moves joined), never
+// by the wholesale "remove all from device, then add all from Netspoc" path.
+//vc:func (*State).diffCmds
+//vc:  assert[C14] at "s.delCmds(al)" @aclLinesNeverRemovedWholesale al[0].subCmdOf.typ.prefix != "ip access-list extended"
